@@ -114,7 +114,7 @@ def run(ctx, n_override=None):
                 'postings), off by >= 1 whole unit, off by a sub-display amount, residual at/just below/just above half a display '
                 'unit through an excess-precision cost, two-commodity implied-rate shapes, lot price vs sale price (gain/loss), one '
                 'elided amount; non-trivial = the property text determines accept/reject for it; distinct by rendered text')
-    n = n_override or ctx.scale(260, 6000)
+    n = n_override or ctx.scale(260, 3500)
     for j in range(n):
         if rng.random() < 0.2:
             xs = [X.gen_balanced(rng) for _ in range(rng.randrange(2, 8))]    # all exactly balanced: grand total
